@@ -197,6 +197,9 @@ func genMaterial() (*material, error) {
 			conf.MinVersion = tls.VersionTLS10
 			conf.MaxVersion = tls.VersionTLS11
 		}
+		if sc.tls12 {
+			conf.MaxVersion = tls.VersionTLS12
+		}
 		m.srvConf[s] = conf
 	}
 
